@@ -132,7 +132,12 @@ def heap_write_keys(ex, stmts, st):
                         if not done:
                             ws.keys.update(expand_keys(cands))
                     elif isinstance(t, ast.Subscript):
-                        container_write(t.value, n)
+                        sl = t.slice
+                        if (isinstance(sl, ast.Tuple) and len(sl.elts) == 2 and isinstance(sl.elts[0], ast.Constant)
+                                and isinstance(sl.elts[0].value, str) and sl.elts[0].value in REG.attrs):
+                            ws.keys.update(expand_keys(["@" + sl.elts[0].value]))     # node[("attr", sc)] = v
+                        else:
+                            container_write(t.value, n)
             if isinstance(n, ast.Call):
                 txt = ast.unparse(n.func)
                 d = ex.c.calls.get(txt)
